@@ -916,8 +916,14 @@ Variable allowed : nat -> Prop.
 Notation cf := (Model.cf pconfs).
 Implicit Types P : world -> Prop.
 
+(* a deferred answer that is stored in `pend` has no first round left (todo = None);
+   one that is being created may start the allowed processes only *)
 Definition def_ok (d : deferred) : Prop :=
+  match d with DAll _ _ _ (Some _) _ _ => False | _ => True end.
+Definition arg_ok (d : deferred) : Prop :=
   match d with DAll _ DStart _ (Some l) _ _ => Forall allowed l | _ => True end.
+Lemma def_arg_ok d : def_ok d -> arg_ok d.
+Proof. destruct d as [|req k wait [l|] cbs res]; cbn; try tauto. destruct k; tauto. Qed.
 Definition IX (w : world) : Prop := X w /\ Forall def_ok (pend w).
 
 Definition kx {A} (P : world -> Prop) (m : Model.M A) (R : A -> Prop) : Prop :=
@@ -934,7 +940,8 @@ Hypothesis H_give_up : forall j, xp (fun w => sts w j = BACKOFF) (Model.give_up 
 Hypothesis H_signal : forall j sg s, in_signallable_states s = true -> xp (fun w => sts w j = s) (Model.signal U j sg).
 Hypothesis H_rollback : forall j w0, xp (fun w => w = w0) (Model.rollback_adjust U pconfs j (now w0)).
 Hypothesis H_reap : forall fuel, xp (fun _ => True) (Model.reap U pconfs fuel).
-Hypothesis H_start : forall j wait, allowed j -> xp (fun _ => True) (Model.start_process U pconfs j wait).
+Hypothesis H_spawn : forall j s, allowed j -> spawnable s = true \/ s = STOPPING ->
+  xp (fun w => sts w j = s) (Model.spawn U pconfs j).
 
 (* the operations on `pend` do not matter to X; a process-level operation does not touch `pend` *)
 Definition obsPend (w : world) := pend w.
@@ -1023,7 +1030,7 @@ Ltac pq :=
     | |- quiet _ (emit _) => qprim
     | |- quiet _ (crash _) => qprim
     | |- quiet _ (mapM_ _ _) => apply quiet_mapM; intros
-    | |- quiet _ _ => assumption
+    | |- quiet _ _ => solve [auto]
     | |- quiet _ (if ?c then _ else _) => destruct c
     | |- quiet _ (match ?x with _ => _ end) => destruct x
     | |- quiet _ (bind _ _) => apply quiet_bind; [ | intros ? ]
@@ -1068,10 +1075,10 @@ Lemma rollback_kx j w0 : kx (fun w => w = w0) (Model.rollback_adjust U pconfs j 
 Proof. apply kx_of; [apply ipre_weaken; apply rollback_ipre | apply H_rollback | apply qp_rollback]. Qed.
 Lemma reap_kx fuel : kx (fun _ => True) (Model.reap U pconfs fuel) anyv.
 Proof. apply kx_of; [apply reap_ipre | apply H_reap | apply qp_reap]. Qed.
-Lemma start_process_kx j wait : allowed j -> kx (fun _ => True) (Model.start_process U pconfs j wait) anyv.
-Proof. intros Ha. apply kx_of; [apply start_process_ipre | apply H_start; exact Ha | apply qp_start_process]. Qed.
+Lemma spawn_kx j s : allowed j -> spawnable s = true \/ s = STOPPING ->
+  kx (fun w => sts w j = s) (Model.spawn U pconfs j) anyv.
+Proof. intros Ha Hs. apply kx_of; [apply spawn_ipre; exact Hs | apply H_spawn; assumption | apply qp_spawn]. Qed.
 
-Ltac kxpre := eapply kx_pre; [cbv beta; intros ? ?; tauto|].
 Ltac kxstep :=
   lazymatch goal with
   | |- kx _ (ret _) anyv => apply kx_ret_any
@@ -1085,13 +1092,19 @@ Ltac kxstep :=
   | |- kx _ (modw set_exited) _ => apply kx_set_exited
   | |- kx _ (modw _) _ => apply kx_modw; inert3_prim
   | |- kx _ (mapM_ _ _) _ => apply kx_mapM; intros
-  | |- kx _ (Model.stop _ _ _) _ => kxpre; apply stop_kx; reflexivity
-  | |- kx _ (Model.give_up _ _) _ => kxpre; apply give_up_kx
-  | |- kx _ (Model.signal _ _ _) _ => kxpre; apply signal_kx; reflexivity
-  | |- kx _ (Model.rollback_adjust _ _ _ (now _)) _ => kxpre; apply rollback_kx
+  | |- kx (fun w => @?P w /\ sts w ?x = ?s) (Model.stop _ _ ?x) _ =>
+    apply (kx_pre _ (fun w => sts w x = s)); [cbv beta; intros; tauto | apply stop_kx; reflexivity]
+  | |- kx (fun w => @?P w /\ sts w ?x = ?s) (Model.spawn _ _ ?x) _ =>
+    apply (kx_pre _ (fun w => sts w x = s)); [cbv beta; intros; tauto | apply spawn_kx; [assumption | solve [auto]]]
+  | |- kx (fun w => @?P w /\ sts w ?x = ?s) (Model.give_up _ ?x) _ =>
+    apply (kx_pre _ (fun w => sts w x = s)); [cbv beta; intros; tauto | apply give_up_kx]
+  | |- kx (fun w => @?P w /\ sts w ?x = ?s) (Model.signal _ ?x _) _ =>
+    apply (kx_pre _ (fun w => sts w x = s)); [cbv beta; intros; tauto | apply signal_kx; reflexivity]
+  | |- kx _ (Model.rollback_adjust _ _ ?x (now ?w0)) _ =>
+    apply (kx_pre _ (fun w => w = w0)); [cbv beta; intros; tauto | apply rollback_kx]
   | |- kx _ (Model.transition _ _ _) _ => apply kx_weaken; apply transition_kx
   | |- kx _ (Model.reap _ _ _) _ => apply kx_weaken; apply reap_kx
-  | |- kx _ reap_all _ => apply kx_weaken; apply reap_kx
+  | |- kx _ (reap_all _ _) _ => unfold reap_all; apply kx_weaken; apply reap_kx
   | |- kx _ (if ?c then _ else _) _ => destruct c
   | |- kx _ (match ?x with _ => _ end) _ => destruct x
   | |- kx _ (bind _ _) _ => eapply kx_bind; [ | intros ? _ ]
@@ -1111,6 +1124,9 @@ Lemma stop_process_kx i wait : kx (fun _ => True) (Model.stop_process U pconfs i
 Proof. unfold Model.stop_process. kxtac. Qed.
 Lemma signal_process_kx i sg ok : kx (fun _ => True) (Model.signal_process U pconfs i sg ok) anyv.
 Proof. unfold Model.signal_process. kxtac. Qed.
+
+Lemma start_process_kx j wait : allowed j -> kx (fun _ => True) (Model.start_process U pconfs j wait) anyv.
+Proof. intros Ha. unfold Model.start_process. kxtac. Qed.
 
 Lemma poll_one_kx k i : kx (fun _ => True) (Model.poll_one U pconfs k i) anyv.
 Proof. destruct k; cbn [Model.poll_one]; [apply start_onwait_kx | apply stop_onwait_kx]. Qed.
@@ -1135,7 +1151,7 @@ Qed.
 
 Definition opt_ok (o : option deferred) : Prop := match o with Some d => def_ok d | None => True end.
 
-Lemma poll_deferred_kx d : def_ok d -> kx (fun _ => True) (Model.poll_deferred U pconfs d) opt_ok.
+Lemma poll_deferred_kx d : arg_ok d -> kx (fun _ => True) (Model.poll_deferred U pconfs d) opt_ok.
 Proof.
   intros Hd. destruct d as [req k i | req k wait todo cbs res]; cbn [Model.poll_deferred].
   - eapply kx_bind; [apply poll_one_kx|]. intros v _. destruct v.
@@ -1147,19 +1163,19 @@ Proof.
       * eapply kx_bind; [apply kx_emit; exact Logic.I|]. intros _ _. apply kx_ret. exact Logic.I.
       * eapply kx_bind; [apply all_poll_kx|]. intros [cbs2 res2] _. destruct cbs2.
         -- eapply kx_bind; [apply kx_emit; exact Logic.I|]. intros _ _. apply kx_ret. exact Logic.I.
-        -- apply kx_ret. cbn. destruct k; exact Logic.I.
+        -- apply kx_ret. exact Logic.I.
 Qed.
 
 Lemma poll_pending_kx l : Forall def_ok l -> forall keep, Forall def_ok keep ->
   kx (fun _ => True) (Model.poll_pending U pconfs l keep) (Forall def_ok).
 Proof.
   induction l as [|d l IH]; intros Hl keep Hk; cbn [Model.poll_pending]; [apply kx_ret; exact Hk|].
-  inversion Hl; subst. eapply kx_bind; [apply poll_deferred_kx; assumption|].
+  inversion Hl; subst. eapply kx_bind; [apply poll_deferred_kx; apply def_arg_ok; assumption|].
   intros o Ho. destruct o as [d'|]; apply IH; try assumption.
   apply Forall_app. split; [exact Hk | constructor; [exact Ho | constructor]].
 Qed.
 
-Lemma defer_now_kx d : def_ok d -> kx (fun _ => True) (Model.defer_now U pconfs d) anyv.
+Lemma defer_now_kx d : arg_ok d -> kx (fun _ => True) (Model.defer_now U pconfs d) anyv.
 Proof.
   intros Hd. unfold Model.defer_now. eapply kx_bind; [apply poll_deferred_kx; exact Hd|].
   intros o Ho. destruct o as [d'|]; [|apply kx_ret_any].
@@ -1216,7 +1232,7 @@ Proof. unfold Model.phase2. kxtac. Qed.
 Definition pass_rest (o : passop) : Model.M unit :=
   bind (mapM_ (Model.do_act U pconfs gconfs) (p_acts o)) (fun _ =>
   bind (mapM_ (transition_group U pconfs gconfs) (sorted_groups gconfs)) (fun _ =>
-  bind reap_all (fun _ => bind handle_signal (fun _ => bind (Model.phase2 gconfs) (fun _ =>
+  bind (reap_all U pconfs) (fun _ => bind handle_signal (fun _ => bind (Model.phase2 gconfs) (fun _ =>
   Model.loop_head U pconfs gconfs))))).
 
 Lemma pass_rest_kx o : Forall act_ok (p_acts o) -> kx (fun _ => True) (pass_rest o) anyv.
@@ -1224,7 +1240,7 @@ Proof.
   intros Ho. unfold pass_rest.
   eapply kx_bind; [apply kx_mapM; intros a Ha; apply do_act_kx; rewrite Forall_forall in Ho; auto|]. intros _ _.
   eapply kx_bind; [apply kx_mapM; intros g _; unfold transition_group; apply kx_mapM; intros j _; apply transition_kx|]. intros _ _.
-  eapply kx_bind; [apply reap_kx|]. intros _ _.
+  eapply kx_bind; [unfold reap_all; apply reap_kx|]. intros _ _.
   eapply kx_bind; [apply handle_signal_kx|]. intros _ _.
   eapply kx_bind; [apply phase2_kx|]. intros _ _. apply loop_head_kx.
 Qed.
@@ -1241,6 +1257,255 @@ Proof.
 Qed.
 
 End KX.
+
+(* ====================================================================== *)
+(* First instance: stored deferred answers never carry a first round (X trivial, every start allowed) *)
+Section PendRun.
+Variable U : Z.
+Variable pconfs : list pconf.
+Variable gconfs : list gconf.
+Notation run := (Model.run U pconfs gconfs).
+
+Lemma act_ok_all a : act_ok pconfs gconfs (fun _ => True) a.
+Proof.
+  destruct a; cbn; try exact Logic.I. destruct r; cbn; try exact Logic.I; apply Forall_forall; intros; exact Logic.I.
+Qed.
+
+Theorem pend_no_todo_step w o :
+  K w -> Forall def_ok (pend w) ->
+  K (Model.step U pconfs gconfs w o) /\ Forall def_ok (pend (Model.step U pconfs gconfs w o)).
+Proof.
+  intros HK HP. unfold Model.step. destruct (crashed w || exited w); [split; assumption|].
+  destruct (pass_kx U pconfs gconfs (fun _ => True) (fun _ => True)) with (o := o) (w := w)
+    as (w' & E & K' & _ & P'); try (intros; exact Logic.I); try assumption.
+  - unfold xp. intros; exact Logic.I.
+  - unfold xp. intros; exact Logic.I.
+  - unfold xp. intros; exact Logic.I.
+  - unfold xp. intros; exact Logic.I.
+  - unfold xp. intros; exact Logic.I.
+  - unfold xp. intros; exact Logic.I.
+  - unfold xp. intros; exact Logic.I.
+  - apply Forall_forall. intros a _. apply act_ok_all.
+  - split; [exact Logic.I | exact HP].
+  - rewrite E. split; assumption.
+Qed.
+
+Theorem pend_no_todo_run ops : K (run ops) /\ Forall def_ok (pend (run ops)).
+Proof.
+  unfold Model.run. assert (H0 : K world0 /\ Forall def_ok (pend world0)) by (split; [apply K_world0 | constructor]).
+  revert H0. generalize world0.
+  induction ops as [|o ops IH]; intros w [HK HP]; cbn; [split; assumption|].
+  apply IH. apply pend_no_todo_step; assumption.
+Qed.
+End PendRun.
+
+(* ====================================================================== *)
+(* Part A5: a process that is down for good stays down *)
+Fixpoint nforki (i : nat) (o : list effect) : nat :=
+  match o with
+  | [] => O
+  | EFork j _ :: r => if Nat.eqb j i then S (nforki i r) else nforki i r
+  | _ :: r => nforki i r
+  end.
+
+(* what is observed of process i: its state, its record, the number of its forks so far *)
+Definition obsN (i : nat) (w : world) : pstate * proc * nat := (sts w i, procs w i, nforki i (out w)).
+
+Ltac n_prim Hb Hb2 :=
+  apply quiet_prim; intros; unfold obsN; cbn; unfold upd; rewrite ?Hb, ?Hb2;
+  repeat match goal with |- context [if ?c then _ else _] => destruct c end; reflexivity.
+
+Ltac ntac Hb Hb2 :=
+  repeat match goal with
+    | |- quiet _ (ret _) => apply quiet_ret
+    | |- quiet _ (bind getw _) => apply quiet_getw; intros ?w0
+    | |- quiet _ (bind (gets _) _) => apply quiet_gets; intros ?s
+    | |- quiet _ (bind (getp _) _) => apply quiet_getp; intros ?p
+    | |- quiet _ _ => solve [auto]
+    | |- quiet _ (setp _ _) => unfold setp
+    | |- quiet _ (modp _ _) => unfold modp
+    | |- quiet _ (assert_in _ _ _) => unfold assert_in
+    | |- quiet _ (Model.change_state _ _ _ _) => unfold Model.change_state
+    | |- quiet _ (Model.move _ _ _ _ _ _ _) => unfold Model.move
+    | |- quiet _ (Model.kill_mark _ _ _ _) => unfold Model.kill_mark
+    | |- quiet _ (k_kill _ _) => unfold k_kill
+    | |- quiet _ (Model.rollback_adjust _ _ _ _) => unfold Model.rollback_adjust
+    | |- quiet _ (modw _) => n_prim Hb Hb2
+    | |- quiet _ (emit _) => n_prim Hb Hb2
+    | |- quiet _ (crash _) => n_prim Hb Hb2
+    | |- quiet _ (if ?c then _ else _) => destruct c
+    | |- quiet _ (match ?x with _ => _ end) => destruct x
+    | |- quiet _ (bind _ _) => apply quiet_bind; [ | intros ? ]
+    end.
+
+Section Frame.
+Variable U : Z.
+Variable pconfs : list pconf.
+Variables i j : nat.
+Hypothesis Hne : j <> i.
+
+Lemma Hb_ij : Nat.eqb i j = false. Proof. apply Nat.eqb_neq. congruence. Qed.
+Lemma Hb_ji : Nat.eqb j i = false. Proof. apply Nat.eqb_neq. congruence. Qed.
+
+Lemma n_spawn : quiet (obsN i) (Model.spawn U pconfs j).
+Proof. pose proof Hb_ij as Hb. pose proof Hb_ji as Hb2. unfold Model.spawn. ntac Hb Hb2. Qed.
+Lemma n_rollback t : quiet (obsN i) (Model.rollback_adjust U pconfs j t).
+Proof. pose proof Hb_ij as Hb. pose proof Hb_ji as Hb2. ntac Hb Hb2. Qed.
+Lemma n_give_up : quiet (obsN i) (Model.give_up U j).
+Proof. pose proof Hb_ij as Hb. pose proof Hb_ji as Hb2. unfold Model.give_up. ntac Hb Hb2. Qed.
+Lemma n_kill sg : quiet (obsN i) (Model.kill U pconfs j sg).
+Proof. pose proof Hb_ij as Hb. pose proof Hb_ji as Hb2. unfold Model.kill. ntac Hb Hb2. Qed.
+Lemma n_stop : quiet (obsN i) (Model.stop U pconfs j).
+Proof. pose proof Hb_ij as Hb. pose proof Hb_ji as Hb2. pose proof n_kill. unfold Model.stop. ntac Hb Hb2. Qed.
+Lemma n_signal sg : quiet (obsN i) (Model.signal U j sg).
+Proof. pose proof Hb_ij as Hb. pose proof Hb_ji as Hb2. unfold Model.signal. ntac Hb Hb2. Qed.
+Lemma n_finish st : quiet (obsN i) (Model.finish U pconfs j st).
+Proof. pose proof Hb_ij as Hb. pose proof Hb_ji as Hb2. unfold Model.finish. cbv zeta. ntac Hb Hb2. Qed.
+Lemma n_transition : quiet (obsN i) (Model.transition U pconfs j).
+Proof.
+  pose proof Hb_ij as Hb. pose proof Hb_ji as Hb2. pose proof n_spawn. pose proof n_give_up. pose proof n_kill.
+  unfold Model.transition. cbv zeta. ntac Hb Hb2.
+Qed.
+End Frame.
+
+Section NoStart.
+Variable U : Z.
+Variable pconfs : list pconf.
+Variable gconfs : list gconf.
+Notation cf := (Model.cf pconfs).
+Notation run := (Model.run U pconfs gconfs).
+Notation reap := (Model.reap U pconfs).
+
+(* reap and a process without a child: untouched (finish is only called for a pid-table entry) *)
+Lemma reap_untouched i fuel : forall w,
+  K w -> pid (procs w i) = 0 ->
+  exists w', reap fuel w = (Some tt, w') /\ K w' /\ obsN i w' = obsN i w.
+Proof.
+  induction fuel as [|f IH]; intros w HK Hp; [exists w; auto|].
+  cbn [Model.reap]. unfold bind at 1. unfold getw at 1.
+  destruct (zombies w) as [|[zp st] rest] eqn:Ez; [exists w; auto|].
+  unfold bind at 1. unfold modw at 1. unfold bind at 1. unfold emit at 1.
+  set (w1 := set_out _ _).
+  assert (I1 : inertw w w1) by (subst w1; repeat split; cbn; lia).
+  assert (K1 : K w1) by (eapply K_inert; eassumption).
+  assert (E1 : obsN i w1 = obsN i w) by (subst w1; reflexivity).
+  assert (Hp1 : pid (procs w1 i) = 0) by (subst w1; exact Hp).
+  destruct (lookup_hist zp (pidhist w)) as [j|] eqn:EL.
+  - apply lookup_hist_in in EL.
+    assert (Hj : j <> i).
+    { intros ->. destruct (k_hist w HK zp i EL) as [Epid Hr]. lia. }
+    destruct (finish_run U pconfs j zp st w1 K1 EL) as (w2 & E2 & Ep0 & K3).
+    unfold bind at 1. rewrite E2. unfold bind at 1. unfold modw at 1.
+    pose proof (n_finish U pconfs i j Hj st w1) as Eq. rewrite E2 in Eq. cbn [snd] in Eq.
+    destruct (IH _ K3) as (w' & E' & K' & Eo').
+    { cbn. unfold obsN in Eq. inversion Eq as [[Es Ep Eo]]. rewrite Ep. exact Hp1. }
+    exists w'. split; [exact E' | split; [exact K'|]]. rewrite Eo'. unfold obsN in *. cbn. congruence.
+  - destruct (IH _ K1 Hp1) as (w' & E' & K' & Eo').
+    exists w'. split; [exact E' | split; [exact K' | congruence]].
+Qed.
+
+Variable i : nat.
+Variable v : pstate * proc * nat.
+Hypothesis v_down : fst (fst v) = FATAL \/ (fst (fst v) = STOPPED /\ laststart (snd (fst v)) <> 0).
+
+Definition NS (w : world) : Prop := obsN i w = v.
+Definition others (j : nat) : Prop := j <> i.
+
+Lemma NS_state w : NS w -> sts w i = FATAL \/ (sts w i = STOPPED /\ laststart (procs w i) <> 0).
+Proof. unfold NS, obsN. intros <-. exact v_down. Qed.
+
+Lemma NS_quiet {A} (m : Model.M A) P : quiet (obsN i) m -> xp NS P m.
+Proof. intros Hq w a w' _ HX _ E. specialize (Hq w). rewrite E in Hq. unfold NS in *. cbn in Hq. congruence. Qed.
+
+Lemma NS_emit e w : nofork e -> NS w -> NS (set_out (e :: out w) w).
+Proof. unfold NS, obsN. intros He <-. destruct e; cbn; try reflexivity. destruct He. Qed.
+Lemma NS_modw w w' : sts w' = sts w -> procs w' = procs w -> now w' = now w -> out w' = out w -> NS w -> NS w'.
+Proof. unfold NS, obsN. intros -> -> _ -> H. exact H. Qed.
+
+Lemma NS_transition j : xp NS (fun _ => True) (Model.transition U pconfs j).
+Proof.
+  destruct (Nat.eq_dec j i) as [-> | Hj]; [|apply NS_quiet; apply n_transition; exact Hj].
+  intros w a w' HK HX _ E. destruct (NS_state w HX) as [Hs | [Hs Hl]].
+  - destruct (fatal_stays_down U pconfs w i Hs) as (w2 & E2 & _ & e1 & e2 & e3).
+    rewrite E2 in E. inversion E; subst w2. unfold NS, obsN in *. congruence.
+  - assert (Hp : pid (procs w i) = 0) by (destruct (k_pi w HK i) as (_ & _ & _ & d); apply d; rewrite Hs; reflexivity).
+    destruct (stopped_after_start_stays_down U pconfs w i Hs Hp Hl) as (w2 & E2 & _ & e1 & e2 & e3).
+    rewrite E2 in E. inversion E; subst w2. unfold NS, obsN in *. congruence.
+Qed.
+
+Lemma NS_not (s : pstate) w : NS w -> sts w i = s -> s <> FATAL -> s <> STOPPED -> False.
+Proof. intros HX Hs H1 H2. destruct (NS_state w HX) as [H | [H _]]; congruence. Qed.
+
+Lemma NS_stop j s : killable s = true -> xp NS (fun w => sts w j = s) (Model.stop U pconfs j).
+Proof.
+  intros Hk. destruct (Nat.eq_dec j i) as [-> | Hj]; [|apply NS_quiet; apply n_stop; exact Hj].
+  intros w a w' _ HX Hs _. exfalso. apply (NS_not s w HX Hs); intros ->; discriminate Hk.
+Qed.
+Lemma NS_give_up j : xp NS (fun w => sts w j = BACKOFF) (Model.give_up U j).
+Proof.
+  destruct (Nat.eq_dec j i) as [-> | Hj]; [|apply NS_quiet; apply n_give_up; exact Hj].
+  intros w a w' _ HX Hs _. exfalso. apply (NS_not BACKOFF w HX Hs); discriminate.
+Qed.
+Lemma NS_signal j sg s : in_signallable_states s = true -> xp NS (fun w => sts w j = s) (Model.signal U j sg).
+Proof.
+  intros Hk. destruct (Nat.eq_dec j i) as [-> | Hj]; [|apply NS_quiet; apply n_signal; exact Hj].
+  intros w a w' _ HX Hs _. exfalso. apply (NS_not s w HX Hs); intros ->; discriminate Hk.
+Qed.
+Lemma NS_rollback j w0 : xp NS (fun w => w = w0) (Model.rollback_adjust U pconfs j (now w0)).
+Proof.
+  destruct (Nat.eq_dec j i) as [-> | Hj]; [|apply NS_quiet; apply n_rollback; exact Hj].
+  intros w a w' _ HX Ew E. subst w0. unfold Model.rollback_adjust, bind, getp, gets, setp, modw in E.
+  assert (Ea : adjust_times U (sts w i) (cf i) (now w) (procs w i) = procs w i)
+    by (destruct (NS_state w HX) as [-> | [-> _]]; reflexivity).
+  rewrite Ea in E. inversion E; subst. unfold NS, obsN in *. cbn. rewrite upd_same. exact HX.
+Qed.
+Lemma NS_reap fuel : xp NS (fun _ => True) (reap fuel).
+Proof.
+  intros w a w' HK HX _ E.
+  assert (Hp : pid (procs w i) = 0).
+  { destruct (k_pi w HK i) as (_ & _ & _ & d). apply d. destruct (NS_state w HX) as [-> | [-> _]]; reflexivity. }
+  destruct (reap_untouched i fuel w HK Hp) as (w2 & E2 & _ & Eo). rewrite E2 in E. inversion E; subst w2.
+  unfold NS in *. congruence.
+Qed.
+Lemma NS_spawn j s : others j -> spawnable s = true \/ s = STOPPING -> xp NS (fun w => sts w j = s) (Model.spawn U pconfs j).
+Proof. intros Hj _. apply NS_quiet. apply n_spawn. exact Hj. Qed.
+
+(* A5, one pass: whatever the script does in this pass - except asking to start process i (by name, by a
+   group that contains it, or by "all") - a process that is FATAL, or STOPPED after having been started
+   once, is exactly as it was at the end of the pass, and no child was forked for it *)
+Theorem no_spontaneous_start_pass w o :
+  K w -> Forall def_ok (pend w) -> NS w -> Forall (act_ok pconfs gconfs others) (p_acts o) ->
+  exists w', Model.do_pass U pconfs gconfs o w = (Some tt, w') /\ K w' /\ Forall def_ok (pend w') /\ NS w'.
+Proof.
+  intros HK HP HX Ho.
+  destruct (pass_kx U pconfs gconfs NS others NS_emit NS_modw NS_transition NS_stop NS_give_up NS_signal
+                    NS_rollback NS_reap NS_spawn o w Ho HK) as (w' & E & K' & X' & P').
+  - split; [exact HX | exact HP].
+  - exists w'. auto.
+Qed.
+
+End NoStart.
+
+(* no start request for process i in the pass *)
+Definition no_start_for (pconfs : list pconf) (gconfs : list gconf) (i : nat) (o : passop) : Prop :=
+  Forall (act_ok pconfs gconfs (fun j => j <> i)) (p_acts o).
+
+(* A5 on whole runs: at any boundary of any run, if process i is FATAL, or STOPPED with laststart <> 0, and the
+   next pass contains no start request for it, then after that pass it is in the same state with the same
+   record and the trace contains no new EFork for it *)
+Theorem no_spontaneous_start_run U pconfs gconfs ops o i :
+  let w := Model.run U pconfs gconfs ops in
+  let w' := Model.step U pconfs gconfs w o in
+  sts w i = FATAL \/ (sts w i = STOPPED /\ laststart (procs w i) <> 0) ->
+  no_start_for pconfs gconfs i o ->
+  sts w' i = sts w i /\ procs w' i = procs w i /\ nforki i (out w') = nforki i (out w).
+Proof.
+  cbv zeta. intros Hd Ho. destruct (pend_no_todo_run U pconfs gconfs ops) as [HK HP].
+  unfold Model.step. destruct (crashed _ || exited _); [auto|].
+  destruct (no_spontaneous_start_pass U pconfs gconfs i (obsN i (Model.run U pconfs gconfs ops)) Hd _ o HK HP eq_refl Ho)
+    as (w' & E & _ & _ & HX).
+  rewrite E. cbn [snd]. unfold NS, obsN in HX. inversion HX. auto.
+Qed.
 
 (* hypotheses satisfiable: a run with two forks (autostart, then restart after an unexpected exit) *)
 Example fork_only_from_spawn_states_example :
